@@ -56,7 +56,7 @@ example : expSelect [(1 : Int), 3, 6] 2 false = .ok 1 := by decide
 end order
 
 /-- ★ `ExponentialCategorical.randomise` returns (the index of) one of the domain values -/
-theorem catLoop_lt {β : Type} [OfNat β 0] [Add β] [LE β] [DecidableLE β] (t : β) :
+theorem catLoop_lt {β : Type} [OfNat β 0] [Add β] [LT β] [DecidableLT β] (t : β) :
     ∀ (ps : List β) (cum : β) (i last : Nat), last < i → catLoop t ps cum i last < i + ps.length
   | [], _, i, last, h => by unfold catLoop; simpa using h
   | p :: ps, cum, i, last, h => by
@@ -68,7 +68,7 @@ theorem catLoop_lt {β : Type} [OfNat β 0] [Add β] [LE β] [DecidableLE β] (t
       simp only [List.length_cons]
       omega
 
-theorem categorical_in_domain {β : Type} [OfNat β 0] [Add β] [LE β] [DecidableLE β] (probs : List β) (t : β)
+theorem categorical_in_domain {β : Type} [OfNat β 0] [Add β] [LT β] [DecidableLT β] (probs : List β) (t : β)
     (h : probs ≠ []) : catSelect probs t < probs.length := by
   unfold catSelect
   cases probs with
